@@ -488,6 +488,37 @@ def comment_producers(ctx, prog):
     every site that hands a comment to a CssDestination is dominated by a test of the style."""
     S = sym.Sym(prog, inline_depth=0)
     n = 0
+    # the writer itself may refuse: `Comment::write` returns before emitting anything on the compressed edge
+    # unless the text starts with `!` (then every producer is covered, whatever path the comment took)
+    writer_guards = False
+    cw = prog.bodies.get("<css::comment::Comment>::write")
+    if cw is not None:
+        from lib import cfgutil
+        emit_rx = re.compile(r"CssBuf>::(add_str|add_one|add_char|do_indent\w*)$|::write(_fmt|_str|_char)?$")
+        emits = {bi for bi, t in cw.calls() if emit_rx.search(mir.callee_name(t) or "") or emit_rx.search(mir.callee_orig(t) or "")}
+        dom = cw.dominators()
+        for bi, t in cw.calls():
+            if not (mir.callee_name(t) or "").endswith("Format>::is_compressed") or t.get("target") is None:
+                continue
+            sw = cw.term(t["target"])
+            if sw["k"] != "switch" or sw.get("otherwise") is None:
+                continue
+            comp = sw["otherwise"]
+            # on the compressed edge every emitting block is behind a test of the comment's own text
+            behind_text = True
+            for e_ in emits:
+                if not (e_ == comp or comp in dom.get(e_, ())):
+                    continue
+                ok_ = False
+                for db in dom.get(e_, ()):
+                    tm = cw.blocks[db]["term"]
+                    if tm["k"] == "switch" and tm["discr"]["k"] in ("copy", "move") and "starts_with" in repr(S.operand(cw, tm["discr"])) and (db == comp or comp in dom.get(db, ())):
+                        ok_ = True
+                behind_text = behind_text and ok_
+            # and nothing is emitted before the style test
+            before = [e_ for e_ in emits if e_ in dom.get(bi, ())]
+            if behind_text and not before:
+                writer_guards = True
     for name in ("output::transform::handle_item", "output::transform::handle_css"):
         b = prog.one(name)
         dom = b.dominators()
@@ -505,6 +536,9 @@ def comment_producers(ctx, prog):
                     if "is_compressed" in repr(S.operand(b, tm["discr"])):
                         guarded = True
             key = f"{name}|{(o or d).rsplit('::', 1)[-1]}"
+            if not guarded and writer_guards:
+                ctx.ok("F6-compressed-comment", key, "Comment::write emits nothing in compressed style unless the text starts with `!`")
+                continue
             if guarded:
                 ctx.ok("F6-compressed-comment", key, None)
             else:
